@@ -29,7 +29,10 @@ import (
 //	    placeholder: =, <=>, like, ilike may become = ; !=, not like, not ilike may become != ;
 //	    any other operator must stay;
 //	(1) L is a protected column and R a literal: the literal's value and literal type may
-//	    change (the CastType, sign folding etc. are still compared).
+//	    change (the CastType, sign folding etc. are still compared); `_binary <literal>` is a
+//	    literal spelling (the introducer may go when the value becomes a hex literal);
+//	(4) `value = column`, `value != column`, `value <=> column` may be sent with the operands
+//	    exchanged (symmetric operators; what the PostgreSQL observers do).
 //
 // Assignments: a literal (possibly inside parentheses or under a unary operator such as
 // _binary, as encryptor/mysql.UpdateExpressionValue looks through them) at a VALUES position
@@ -41,7 +44,7 @@ import (
 // hashes for values without touching the operator and is accepted.
 
 type undoLog struct {
-	wrapOne, wrapBoth, opFam, cmpLit, assignLit int
+	wrapOne, wrapBoth, opFam, cmpLit, assignLit, swapped int
 }
 
 func (u *undoLog) shape() string {
@@ -51,6 +54,7 @@ func (u *undoLog) shape() string {
 			p = append(p, s)
 		}
 	}
+	add(u.swapped, "operands-of-symmetric-operator-exchanged")
 	add(u.wrapOne, "left-wrapped")
 	add(u.wrapBoth, "both-wrapped")
 	add(u.opFam, "operator-in-family")
@@ -102,6 +106,27 @@ func myUnconvertBinary(e sqlparser.Expr) (sqlparser.Expr, bool) {
 		return nil, false
 	}
 	return c.Expr, true
+}
+
+// myBinaryIntroducer returns the literal of `_binary <literal>`.
+func myBinaryIntroducer(e sqlparser.Expr) (*sqlparser.SQLVal, bool) {
+	u, ok := e.(*sqlparser.UnaryExpr)
+	if !ok || strings.TrimSpace(u.Operator) != "_binary" {
+		return nil, false
+	}
+	v, ok := u.Expr.(*sqlparser.SQLVal)
+	if !ok || myLitKind(v) != "lit" {
+		return nil, false
+	}
+	return v, true
+}
+
+// myValueKind: myLitKind, with `_binary <literal>` (a binary string literal of MySQL) as "lit".
+func myValueKind(e sqlparser.Expr) string {
+	if _, ok := myBinaryIntroducer(e); ok {
+		return "lit"
+	}
+	return myLitKind(e)
 }
 
 func myLitKind(e sqlparser.Expr) string {
@@ -172,11 +197,23 @@ func myUndoLit(e0, e1 sqlparser.Expr) bool {
 }
 
 func myUndoCmp(c0, c1 *sqlparser.ComparisonExpr, d *obsDesc, u *undoLog) {
+	// (4) `value = column`, `value != column`, `value <=> column` may be sent with the operands
+	// exchanged (symmetric operators; the pinned MySQL observers do not do it, the PostgreSQL
+	// ones do - the same permission for both)
+	switch c0.Operator {
+	case sqlparser.EqualStr, sqlparser.NotEqualStr, sqlparser.NullSafeEqualStr:
+		if _, rcol := c0.Right.(*sqlparser.ColName); rcol && myValueKind(c0.Left) != "" {
+			if myValueKind(c1.Left) == "" && myValueKind(c1.Right) != "" {
+				c0.Left, c0.Right = c0.Right, c0.Left
+				u.swapped++
+			}
+		}
+	}
 	var lkey string
 	if col, ok := c0.Left.(*sqlparser.ColName); ok {
 		lkey = myColKey(col)
 	}
-	rKind := myLitKind(c0.Right)
+	rKind := myValueKind(c0.Right)
 	var rkey string
 	if col, ok := c0.Right.(*sqlparser.ColName); ok {
 		rkey = myColKey(col)
@@ -211,7 +248,12 @@ func myUndoCmp(c0, c1 *sqlparser.ComparisonExpr, d *obsDesc, u *undoLog) {
 		}
 	}
 	if lkey != "" && d.has(d.Prot, lkey) && rKind == "lit" {
-		if myUndoLit(c0.Right, c1.Right) {
+		// `_binary <literal>` may be sent as a plain (hex) literal: the introducer belongs to the
+		// literal's spelling
+		if _, intro := myBinaryIntroducer(c0.Right); intro && myLitKind(c1.Right) == "lit" {
+			c1.Right = c0.Right
+			u.cmpLit++
+		} else if myUndoLit(c0.Right, c1.Right) {
 			u.cmpLit++
 		}
 	}
